@@ -148,9 +148,9 @@ def print_axioms(module, names):
     os.unlink(scratch)
     res = {}
     txt = r.stdout.replace("\n  ", " ").replace("\n ", " ")
-    for m in re.finditer(r"'([^']+)' depends on axioms: \[([^\]]*)\]", txt):
+    for m in re.finditer(r"'(\S+)' depends on axioms: \[([^\]]*)\]", txt):
         res[m.group(1)] = [a.strip() for a in m.group(2).split(",") if a.strip()]
-    for m in re.finditer(r"'([^']+)' does not depend on any axioms", txt):
+    for m in re.finditer(r"'(\S+)' does not depend on any axioms", txt):
         res[m.group(1)] = []
     return res, r.stdout
 
